@@ -3,6 +3,7 @@ import itertools
 
 import numpy as np
 
+from vf import core
 from vf import e2e, gen, hooks, pipeline
 from vf.core import Shard, rng_for
 
@@ -21,7 +22,8 @@ ASSUMPTIONS = ['bits beyond `end` are checked for exactness when emitted but the
 MINIMUMS = {'vectorise-calls': {'quick': 300000, 'thorough': 1000000}, 'blur-calls': {'quick': 2000, 'thorough': 30000},
             'conv-calls': {'quick': 900, 'thorough': 15000}, 'select-calls': {'quick': 2000, 'thorough': 20000},
             'e2e-selections': {'quick': 300, 'thorough': 3000}, 'e2e-selections-truncated': {'quick': 100, 'thorough': 1000},
-            'e2e-correlations-truncated': {'quick': 50, 'thorough': 500}}
+            'e2e-correlations-truncated': {'quick': 50, 'thorough': 500},
+            'e2e-positionsToSequence-calls': {'quick': 5000, 'thorough': 50000}, 'e2e-positionsToSequence-negative-start': {'quick': 20, 'thorough': 300}}
 
 
 def plan(tier, seed):
@@ -103,6 +105,53 @@ def run_blur(spec, sh):
                     sh.nontrivial_enum += 1
 
 
+def seq_model(pos, res, blur_r, start, n):
+    """Bits 0..n-1 of blur(vectorise(pos)) relative to `start`, written from the statement."""
+    import math
+    raw = [0] * n
+    for p in pos:
+        i = math.floor((p - start) / res)
+        # guard the float division at bin borders with the defining inequality
+        while start + i * res > p:
+            i -= 1
+        while start + (i + 1) * res <= p:
+            i += 1
+        if 0 <= i < n:
+            raw[i] = 1
+    if blur_r == 0:
+        return raw
+    pre = [0]
+    for b in raw:
+        pre.append(pre[-1] + b)
+    return [1 if pre[min(n, i + blur_r + 1)] - pre[max(0, i - blur_r)] > 0 else 0 for i in range(n)]
+
+
+def judge_sequence(pos, res, blur_r, start, end, sh, case, tag):
+    """SequenceGenerator.positionsToSequence: the composition the pipeline actually uses (window start included)."""
+    from src.correlation.sequence_generator import SequenceGenerator
+    sh.count(tag + 'positionsToSequence-calls')
+    try:
+        out = [int(x) for x in SequenceGenerator(res, blur_r).positionsToSequence(list(pos), start, end)]
+    except Exception as ex:
+        sh.violation('positionsToSequence-raises:' + type(ex).__name__, 'positionsToSequence(%s.., res=%s, blur=%s, start=%s, end=%s) raised %r' % (list(pos)[:6], res, blur_r, start, end, ex), case)
+        return
+    judge_sequence_result(out, pos, res, blur_r, start, end, sh, case)
+
+
+def judge_sequence_result(out, pos, res, blur_r, start, end, sh, case):
+    exp = seq_model(pos, res, blur_r, start, len(out))
+    if out != exp:
+        i = next(k for k, (a, b) in enumerate(zip(out, exp)) if a != b)
+        sh.violation('sequence-bits-wrong', 'positionsToSequence(res=%s, blur=%s, start=%s, end=%s): bit %d is %d, expected %d (labels near: %s)' % (
+            res, blur_r, start, end, i, out[i], exp[i], [p for p in pos if abs(p - (start + i * res)) < (blur_r + 2) * res][:6]), case)
+        return
+    e_eff = end if end not in (None, 0) else (pos[-1] if pos else 0)
+    for p in pos:
+        if start <= p <= e_eff and (p - start) // res >= len(out):
+            sh.violation('sequence-label-not-covered', 'label %s in [start=%s, end=%s] lies beyond the %d emitted bits' % (p, start, end, len(out)), case)
+            break
+
+
 def judge_conv(res, start, p, sh):
     from src.correlation.optical_map import toRelativeGenomicPositions
     sh.count('conv-calls')
@@ -161,6 +210,8 @@ def run_random(spec, sh):
         end = rng.choice([None, None, pos[-1] + res * 2, pos[len(pos) // 2], start + res * 5])
         v = judge_vec(pos, res, start, end, sh, 'random')
         sh.nt(['vec', pos, res, start, end])
+        b = rng.choice([0, 1, 4])
+        judge_sequence(pos, res, b, start, end, sh, {'kind': 'seq', 'pos': pos, 'res': res, 'blur': b, 'start': start, 'end': end}, 'random-')
         L = rng.randint(0, 40)
         bits = [1 if rng.random() < 0.2 else 0 for _ in range(L)]
         judge_blur(bits, rng.randint(0, 6), sh)
@@ -247,7 +298,18 @@ def judge_e2e(case, wd, sh):
                 hooks.MONITOR_ERRORS.append(traceback.format_exc()[-500:])
             return out
         return sel
-    st = [hooks.wrapped(om, 'find_peaks', mk_fp), hooks.wrapped(om.OpticalMap, 'getInitialAlignment', mk_gia),
+    import src.correlation.sequence_generator as sgm
+
+    def after_seq(a, k, res, snap):
+        self_, positions = a[0], a[1]
+        start = a[2] if len(a) > 2 else k.get('start', 0)
+        end = a[3] if len(a) > 3 else k.get('end')
+        sh.count('e2e-positionsToSequence-calls')
+        if start < 0:
+            sh.count('e2e-positionsToSequence-negative-start')
+        judge_sequence_result([int(x) for x in res], list(positions), self_.resolution, self_.blurRadius, start, end, sh, slim())
+    st = [hooks.wrapped(sgm.SequenceGenerator, 'positionsToSequence', hooks.observing(after_seq)),
+          hooks.wrapped(om, 'find_peaks', mk_fp), hooks.wrapped(om.OpticalMap, 'getInitialAlignment', mk_gia),
           hooks.wrapped(psel.PeaksSelector, 'selectPeaks', mk_sel)]
     obs = e2e.observe(case, wd, trace=False, cands=False, extra_ctx=st)
     e2e.note_run(case, obs, sh)
@@ -260,7 +322,7 @@ def run_e2e(spec, sh):
                                  param_prob=0.0, ref_kw={'repeats': rng.random() < 0.6})
         case['params']['p'] = rng.choice([1, 2, 3, 6])
         case['params']['md'] = rng.choice([20000, 1400, 5000])
-        judge_e2e(case, spec['workdir'], sh)
+        core.isolated(judge_e2e, sh, case, spec['workdir'])
     if hooks.MONITOR_ERRORS:
         sh.inconclusive.append('monitor errors: %s' % hooks.MONITOR_ERRORS[:3])
 
@@ -280,6 +342,8 @@ def replay(case):
         judge_blur(case['bits'], case['r'], sh)
     elif k == 'conv':
         judge_conv(case['res'], case['start'], case['p'], sh)
+    elif k == 'seq':
+        judge_sequence(case['pos'], case['res'], case['blur'], case['start'], case['end'], sh, case, 'replay-')
     elif k == 'select':
         judge_select(case['scores'], case['count'], sh)
     else:
